@@ -10,7 +10,7 @@ import (
 )
 
 func init() {
-	register("C08", 14, "Decided (for every path of the current source): (R1) every exit of the receiver's prefix-hash exchange that exchanged at least one message seeks to AND truncates at the same offset m; m is only ever 0 or a peer step stored on the edge where the peer's hash equalled the hash of this file's own bytes; after the first mismatch no compare can run again; the exit without truncation happens only before any exchange (size<=0 / no real file); (R2) the sender exits early on the same predicate, seeks to the value its ack stage delivered (advanced only on Match) and announces size-minus-that; (R3) v1/v2 and archive entries open with truncate, v3/v4 open without and must run the prefix-hash exchange before returning the writer; (R4) the compression probe restores the read offset. Not decided: MD5-prefix collision resistance, block-boundary arithmetic on real contents, content equality.",
+	register("C08", 14, "Decided (for every path of the current source): (R1) every exit of the receiver's prefix-hash exchange that exchanged at least one message seeks to AND truncates at the same offset m; m is only ever 0 or a peer step stored on the edge where the peer's hash equalled the hash of this file's own bytes; after the first mismatch no compare can run again; the exit without truncation happens only before any exchange (size<=0 / no real file); (R2) the sender exits early on the same predicate, seeks to the value its ack stage delivered (advanced only on Match) and announces size-minus-that; (R3) v1/v2 and archive entries open with truncate, v3/v4 open without and must run the prefix-hash exchange before returning the writer; (R4) the compression probe restores the read offset. Not decided: MD5-prefix collision resistance, block-boundary arithmetic on real contents, content equality. (R5) shape of the hash pipeline: step = running total of bytes read, digest covers exactly the read, reads capped by the compared range, closing message on every live exit, offset delivered only when final and otherwise cancel, success only on a live context after both stages ended, exchange iff target non-empty, cut only after the closing message.",
 		func(c *Ctx) {
 			c.run("C08-R1", "MUST-PASS/GUARD-DOM: receiver seeks+truncates at the last offset both ends proved equal", c08R1)
 			c.run("C08-R2", "SIBLING: sender mirrors the early exit, seeks to the matched offset, sends the remainder", c08R2)
